@@ -33,6 +33,8 @@ NAMES = ['A', 'B', 'C', 'D', 'E', 'F', 'G', 'H', 'I']
 # hand-made graphs that run first: hairpins on chain ends traversed forwards and in reverse, a cycle with a closing link,
 # two chains sharing a junction, members with several dependants
 CORPUS = [
+    # ambiguity codes in members traversed in reverse: S and W are their own complements, R/Y, K/M, B/V, D/H swap
+    ['S\tA\tASWRK', 'S\tB\tBDNsw', 'S\tC\tMYVHC', 'L\tB\t-\tA\t-\t1M', 'L\tB\t+\tC\t-\t*'],
     # members with and without sequence in one chain (F78): the merged segment has no sequence
     ['S\tA\t*\tLN:i:4', 'S\tB\tGGTT', 'L\tA\t+\tB\t+\t1M'],
     ['S\tA\tAACC', 'S\tB\t*\tLN:i:5', 'S\tC\tACGTA', 'L\tA\t+\tB\t+\t1M', 'L\tC\t-\tB\t-\t2M'],
@@ -60,7 +62,7 @@ def gen_case(rng, i):
         length[n] = ln
         withseq = mode == 'seq' or (mode == 'mixed' and rng.random() < 0.6)
         if withseq:
-            s = ''.join(rng.choice('ACGT') for _ in range(ln))
+            s = ''.join(rng.choice('ACGT' if rng.random() < 0.7 else 'ACGTNRYKMSWBVDHacgtnswry') for _ in range(ln))
             lines.append('S\t%s\t%s%s' % (n, s, rng.choice(['', '\tLN:i:%d' % ln])))
         else:
             lines.append('S\t%s\t*%s' % (n, rng.choice(['', '\tLN:i:%d' % ln, '\tLN:i:%d' % ln])))
